@@ -50,6 +50,35 @@ class GBM(Problem):
         return y0 * torch.exp(c * t + self.s * W)
 
 
+class TimeGBM(Problem):
+    """explicitly time-dependent diffusion: dY = a Y dt + (b + t) Y dW; the exact solution needs W_T and U = int W ds"""
+    name = 'timegbm'
+    needs_U = True
+
+    def __init__(self, st, nt='diagonal'):
+        super().__init__(st, nt)
+        self.a, self.b = 0.2, 0.3
+        self.d, self.m = 1, 1
+
+    def f(self, t, y):
+        return self.a * y
+
+    def g(self, t, y):
+        t = torch.as_tensor(t, dtype=y.dtype)
+        g = (self.b + t) * y
+        return g if self.noise_type == 'diagonal' else g.unsqueeze(-1)
+
+    def y0(self, P):
+        return torch.full((P, 1), 0.7, dtype=torch.float64)
+
+    def exact(self, y0, T, W, U=None):
+        stoch = (self.b + T) * W - U  # int_0^T (b + s) dW_s
+        det = self.a * T
+        if self.sde_type == 'ito':
+            det = det - ((self.b + T) ** 3 - self.b ** 3) / 6  # - 1/2 int (b+s)^2 ds
+        return y0 * torch.exp(det + stoch)
+
+
 class ArcTan(Problem):
     """diagonal, nonlinear diffusion with g'' != 0:  dy = p cos^2(y) o dW,  y = arctan(p W + tan y0)"""
     name = 'arctan'
@@ -151,7 +180,9 @@ class CommGeneral(Problem):
         return torch.einsum('pij,pj->pi', torch.matrix_exp(M), y0)
 
 
-PROBLEMS = {'diagonal': [GBM, ArcTan], 'scalar': [MatExp, lambda st: ArcTan(st, 'scalar')], 'additive': [ExAdditive],
+PROBLEMS = {'diagonal': [GBM, ArcTan, TimeGBM],
+            'scalar': [MatExp, lambda st: ArcTan(st, 'scalar'), lambda st: TimeGBM(st, 'scalar')],
+            'additive': [ExAdditive],
             'general': [CommGeneral]}
 
 
@@ -166,6 +197,8 @@ def ladder_unit(unit):
     name = zoo.cell_name(cell)
     P = unit['paths']
     levy = zoo.levy_for(method)
+    if levy == 'none':
+        levy = 'space-time'  # every solver accepts it; gives access to U for exact solutions with time-dependent g
     with torch.no_grad(), warnings.catch_warnings():
         warnings.simplefilter('ignore')
         for mk in PROBLEMS[nt]:
@@ -175,7 +208,11 @@ def ladder_unit(unit):
             for pset in range(unit['path_sets']):
                 bm = torchsde.BrownianInterval(0., 1., size=(P, prob.m), dtype=torch.float64,
                                                entropy=unit['entropy'] + 1000 * pset, levy_area_approximation=levy)
-                exact = prob.exact(y0, 1.0, bm(0., 1.))
+                if getattr(prob, 'needs_U', False):
+                    W_, U_ = bm(0., 1., return_U=True)
+                    exact = prob.exact(y0, 1.0, W_, U_)
+                else:
+                    exact = prob.exact(y0, 1.0, bm(0., 1.))
                 errs = []
                 p_adv = None
                 for k in unit['rungs']:
@@ -227,7 +264,11 @@ def ladder_unit(unit):
             if unit.get('adaptive', True):
                 bm = torchsde.BrownianInterval(0., 1., size=(P, prob.m), dtype=torch.float64,
                                                entropy=unit['entropy'] + 7, levy_area_approximation=levy)
-                exact = prob.exact(y0, 1.0, bm(0., 1.))
+                if getattr(prob, 'needs_U', False):
+                    W_, U_ = bm(0., 1., return_U=True)
+                    exact = prob.exact(y0, 1.0, W_, U_)
+                else:
+                    exact = prob.exact(y0, 1.0, bm(0., 1.))
                 aerrs = []
                 for k in unit['tols']:
                     tol = 10.0 ** -k
